@@ -21,7 +21,7 @@ def run(tier, seed):
     t0 = time.time()
     d = vc.fresh_dir(PID)
     b = build(d)
-    reps = [vc.run_seqx(b, [2 if tier == "quick" else 4])]
+    reps = [vc.run_seqx(b, [4])]   # both tiers run the alphabet that used to be the thorough one (1 s)
     tot, viol = vc.seqx_collect(PID, "cmp", reps)
     if tot["evaluations"] < 10**6 or tot["distinct_nontrivial"] < 10**5:
         raise vc.EngineError("vacuous: too few triples")
